@@ -49,6 +49,9 @@ def gen_sources(outdir, Ls):
     d.append('  if (cmd == "forcing") { auto L = t.nat(); auto ncell = t.nat(); auto ns = t.nat(); switch (L) {')
     for L in Ls: d.append(f"    case {L}: return DenseCfg<{L}>::forcing(t, ncell, ns);")
     d.append('    default: return "no-cfg"; } }')
+    d.append('  if (cmd == "rates") { auto L = t.nat(); auto ncell = t.nat(); auto np = t.nat(); switch (L) {')
+    for L in Ls: d.append(f"    case {L}: return DenseCfg<{L}>::rates(t, ncell, np);")
+    d.append('    default: return "no-cfg"; } }')
     d.append('  if (cmd == "sparse") { auto n = t.nat(); auto csc = t.nat(); auto L = t.nat(); auto blocks = t.nat(); switch (L * 2 + csc) {')
     for L in Ls:
         for c in (0, 1): d.append(f"    case {L*2+c}: return KernelCfg<{L},{'true' if c else 'false'}>::sparse(t, n, blocks);")
@@ -66,6 +69,12 @@ def gen_sources(outdir, Ls):
         for c in (0, 1):
             for k in range(4):
                 d.append(f"    case {(L*2+c)*4+k}: return SolveCfg<{L},{'true' if c else 'false'},{k}>::solve(t, integ);")
+    d.append('    default: return "no-cfg"; } }')
+    d.append('  if (cmd == "hist") { auto integ = t.nat(); auto L = t.nat(); auto csc = t.nat(); auto kind = t.nat(); switch ((L * 2 + csc) * 4 + kind) {')
+    for L in Ls:
+        for c in (0, 1):
+            for k in range(4):
+                d.append(f"    case {(L*2+c)*4+k}: return SolveCfg<{L},{'true' if c else 'false'},{k}>::hist(t, integ);")
     d.append('    default: return "no-cfg"; } }')
     d.append('  return "bad-op";')
     d.append("}")
@@ -90,7 +99,7 @@ def build(Ls, san, jobs=16, quiet=True):
         for _, d in olds[:-3]:
             shutil.rmtree(os.path.join(base, d), ignore_errors=True)
     os.makedirs(outdir, exist_ok=True)
-    srcs = gen_sources(outdir, Ls) + [os.path.join(HARNESS, "main.cpp")]
+    srcs = gen_sources(outdir, Ls) + [os.path.join(HARNESS, "main.cpp"), os.path.join(HARNESS, "misc.cpp")]
     objs = []
     def cc(src):
         obj = os.path.join(outdir, os.path.basename(src) + ".o")
